@@ -445,6 +445,17 @@ def run(ctx):
     ctx.note("exhaustive_alphabet_size", len(alphabet))
     ctx.note("exhaustive_depth", depth)
     ctx.note("exhaustive_subfamily_complete", True)
+    # (t) targeted pairs for the equivalence: the same units in the same iteration order, owned differently (one annotator's last unit
+    # is the next annotator's first); the same owners, one label apart; an annotator without units on one side only
+    for segs in ([(0.0, 1.0), (1.0, 2.0), (2.0, 3.0)], [(0.0, 2.0), (0.0, 2.0), (5.0, 6.0)], [(-3.0, -1.0), (0.5, 7.25), (1.0, 2.0)]):
+        for lab in ("x", None):
+            ops = [("add", 0, "a", segs[0], lab), ("add", 0, "b", segs[1], lab), ("add", 0, "b", segs[2], lab), ("new",),
+                   ("add", 1, "a", segs[0], lab), ("add", 1, "a", segs[1], lab), ("add", 1, "b", segs[2], lab), ("new",),
+                   ("add", 2, "a", segs[0], lab), ("add", 2, "b", segs[1], "y"), ("add", 2, "b", segs[2], lab), ("new",),
+                   ("add", 3, "a", segs[0], lab), ("add", 3, "b", segs[1], lab), ("add", 3, "b", segs[2], lab), ("addann", 3, "c")]
+            ctx.begin_case({"history": [list(map(_j, op)) for op in ops], "mode": "targeted-equality"})
+            run_history(ctx, ops, check_every=True, where="targeted-equality")
+
     # (b) random histories under the icontract class invariant
     monitors.install_continuum_invariant("M-INV")
     for _ in range(ctx.scale(120, 3000)):
